@@ -456,13 +456,13 @@ class ValidModel(Comp):
             if rng.random() < 0.5:
                 g = shuffled(rng, g)
             fmt = "j" if i % 3 == 1 else "x"
-            data = yanggen.to_json(g) if fmt == "j" else yanggen.to_xml(g)
-            if fmt == "j" and yanggen.count_nodes(g) != _json_nodes(g):
+            data = json_text(g) if fmt == "j" else yanggen.to_xml(g)
+            if data is None:
                 fmt, data = "x", yanggen.to_xml(g)
             cmds = [("mod", hexs(m.yang())), ("parse", "t0", fmt, PARSE_ONLY | PARSE_STRICT, 0, hexs(data)), ("dump", "t0", 1),
                     ("val", "t0", 0, "m")]
             if not exp and rng.random() < 0.6:
-                cmds += self.edits(rng, m, ig, f) + [("dump", "t0", 1), ("val", "t0", 0, "m")]
+                cmds += self.edits(rng, m, ig, f) + [("dump", "t0", 1), ("val", "t0", 0, "m"), ("dump", "t0", 1)]
             pre.append((m, cmds, exp))
         outs = stage1([vline([], c) for _, c, _ in pre])
         L = []
@@ -472,7 +472,8 @@ class ValidModel(Comp):
                 continue                    # module or document rejected by the parser: not a case for the model
             dumps = [x for c, x in zip(cmds, r) if c[0] == "dump"]
             fields = validenc.fields(m) + ["#e " + (",".join(sorted(exp)) or "-"),
-                                           "#k " + ("1" if known_unique_default(m) else "0")] + ["#d " + d for d in dumps]
+                                           "#k " + ("1" if known_unique_default(m) else "0")] + \
+                ["#d " + d for d in dumps[:2]] + ["#a " + d for d in dumps[2:]]
             L.append(vline(fields, cmds))
         return L
 
@@ -496,7 +497,9 @@ class ValidModel(Comp):
                     items.append("%s:%d:%s" % (cls, 1 if cls == "0" else 0, ",".join(sorted(exp)) if k == 0 else "*"))
                     k += 1
             return items
-        for k, it in enumerate(out.split(" | ")):
+        its = out.split(" | ")
+        after = [x for x in its if x.startswith("A:")]
+        for k, it in enumerate([x for x in its if not x.startswith("A:")]):
             p = it.split(":")
             if len(p) != 4:
                 return ["model:" + out[:100]]
@@ -504,8 +507,13 @@ class ValidModel(Comp):
             cls = sorted({RULE_CLASS[c] for c in rules if c in RULE_CLASS})
             if k == 0 and placed != "1":
                 items.append("not-placed")
+            elif k == 0:
+                items.append("%s:%s:%s" % (v, ok, ",".join(cls)))
             else:
-                items.append("%s:%s:%s" % (v, ok, ",".join(cls) if k == 0 else "*"))
+                # edited tree: accepted -> the resulting tree must be RFC-valid; rejected -> the tree before must be invalid
+                ra = after[0].split(":")[1] if after else "?"
+                good = (v == "0" and ra == "1") or (v != "0" and ok == "0")
+                items.append("%s:%d:*" % (v, 1 if v == "0" else 0) if good else "%s:rfc-before=%s-after=%s:*" % (v, ok, ra))
         return items
 
     def norm(self, line, out):
@@ -527,34 +535,48 @@ class ValidModel(Comp):
                 return None
             if pa[0] == pb[0]:
                 # the model of the code agrees with the code: the disagreement is with the RFC verdict
-                if pb[0] == "nouniq" and pa[1] == "1" and kud:
+                if pb[0] == "nouniq" and kud and (pa[1] == "1" or "rfc-before=1" in pa[1]):
                     return ("unique-default-not-in-use", "rejected with data-not-unique although the default value of the unique "
                                                          "leaf is not in use in these entries")
-                if pb[0] == "0" and pa[1] == "0" and k > 0 and moved:
+                if pb[0] == "0" and k > 0 and moved and "after=0" in pa[1]:
                     return ("moved-node-dup-unchecked", "lyd_validate_module accepted a tree that holds a duplicate created by "
                                                         "moving an already validated node")
-                if pb[0] == "0" and pa[1] == "0":
-                    return (None, "validation accepted an instance that violates RFC 7950 (rules %s)" % model_out)
-                if pb[0] != "0" and pa[1] == "1":
+                if pb[0] != "0" and k > 0 and moved:
+                    # the moved node (not flagged LYD_NEW) did not trigger the auto-deletion of the stale default instance
+                    # of its leaf; the default instance is then the one validation looks at
+                    return ("moved-node-dup-unchecked", "a moved (un-flagged) node next to a stale default instance: %s" % pb[0])
+                if pb[0] == "0":
+                    return (None, "validation accepted an instance that violates RFC 7950 (%s)" % model_out[-80:])
+                if pb[0] != "0":
                     return (None, "validation rejected (%s) an instance that satisfies every modelled RFC 7950 rule" % pb[0])
-                if k == 0 and pa[2] != pb[2]:
-                    return None         # Coq's and Python's reading of the RFC differ: a defect of the check, not of libyang
             return None
         return None
 
 
 def _json_nodes(g):
-    """nodes that survive the JSON encoding (a second instance of a leaf is lost)"""
+    """number of nodes when the forest can be written as JSON (no second instance of a leaf / container: an object has
+    one member per name), else -1"""
     n = 0
-    for d in g:
-        n += 1 + _json_nodes(d.children)
     seen = set()
     for d in g:
         if d.schema.kind in ("leaf", "container"):
             if id(d.schema) in seen:
                 return -1
             seen.add(id(d.schema))
+        k = _json_nodes(d.children)
+        if k < 0:
+            return -1
+        n += 1 + k
     return n
+
+
+def json_text(g):
+    if _json_nodes(g) != yanggen.count_nodes(g):
+        return None
+    try:
+        return yanggen.to_json(g)
+    except ValueError:
+        return None             # e.g. a mutated value that is not a number
 
 
 # ------------------------------------------------------------------------------------------------
@@ -653,7 +675,8 @@ class ValidMut(Oracle):
     def case(self, rng, m, g, cls, kud, mu_name=""):
         sh = shuffled(rng, g)
         x, xs = yanggen.to_xml(g), yanggen.to_xml(sh)
-        json_ok = _json_nodes(g) == yanggen.count_nodes(g)
+        sj = shuffled(rng, g, keep_keys=False)
+        j, js = json_text(g), json_text(sj)
         cmds = [("mod", hexs(m.yang()), CTX_NO_YANGLIBRARY)]
         routes = []
         cmds.append(("parse", "t0", "x", PARSE_STRICT, 0, hexs(x)))
@@ -662,11 +685,10 @@ class ValidMut(Oracle):
         routes.append("v")
         cmds += [("parse", "t3", "x", PARSE_ONLY | PARSE_STRICT, 0, hexs(x)), ("val", "t3", 0, "m")]
         routes.append("pv")
-        if json_ok:
-            cmds.append(("parse", "t1", "j", PARSE_STRICT, 0, hexs(yanggen.to_json(g))))
+        if j is not None and js is not None and cls != "type":      # the JSON encoder maps some invalid texts to valid values
+            cmds.append(("parse", "t1", "j", PARSE_STRICT, 0, hexs(j)))
             routes.append("v")
-            cmds += [("parse", "t4", "j", PARSE_ONLY | PARSE_STRICT, 0, hexs(yanggen.to_json(shuffled(rng, g, keep_keys=False)))),
-                     ("val", "t4", 0, "m")]
+            cmds += [("parse", "t4", "j", PARSE_ONLY | PARSE_STRICT, 0, hexs(js)), ("val", "t4", 0, "m")]
             routes.append("pv")
         items = creation_items(g)
         if items and cls not in ("dup", "nokey"):
@@ -711,6 +733,8 @@ class ValidMut(Oracle):
                 if got.split("!")[0] == "other":
                     got = exp           # lyd_new_path refuses some invalid constructions with its own errors
             if got != exp:
+                if got == "noinst!rc=5/vecode=9" and exp == "noinst":
+                    return ("instid-notfound-rc", "instance-identifier without target: return code LY_ENOTFOUND instead of LY_EVALID")
                 if got == "nouniq" and exp == "0" and kud:
                     return ("unique-default-not-in-use", "route %s rejected a valid instance with data-not-unique" % rt)
                 if exp == "0":
